@@ -24,7 +24,7 @@ PROPS = {
              "3/4 hostile (random octets up to 65535, every kind of prefix, 1-3 structured mutations of counts, RDLENGTH, "
              "pointers, inserts, deletes, flips), TSIG-signed requests (valid, stale, corrupted or truncated MAC, unknown "
              "key, 255-octet algorithm name) and their mutations; UDP and TCP; IPv4, IPv6 and mapped sources. "
-             "distinct = (how the request was made, response shape, request classification) classes; requests are also shaped structurally (question section cleared, opcodes 1-15, 0/1/2 OPT records with arbitrary version / extended-RCODE octets at any position); one in twelve bulky zones holds an RRset of 700-1100 MX records (TCP responses above 16 KiB) that a sixth of the requests ask for",
+             "distinct = (how the request was made, response shape, request classification) classes; requests are also shaped structurally (question section cleared, opcodes 1-15, 0/1/2 OPT records with arbitrary version / extended-RCODE octets at any position); one in twelve bulky zones holds an RRset of 700-1100 MX records (TCP responses above 16 KiB) that a sixth of the requests ask for; signed requests also use algorithm and key names of 255 and of 256 octets; a third of the bulky zones hold an MX fan-out (17-40 nested exchanges with 0-14 addresses each); every scenario's name list contains wire-confusable names (a label spelling a catalog entry's wire form)",
         assumptions=COMMON_ASSUMPTIONS + ["response buffers follow the documented caller contract (65535 for TCP, the EDNS payload size for UDP)"],
         quick=plans(dict(build="dbg", nshards=16), dict(build="miri", nshards=4, timeout=900)),
         thorough=plans(dict(build="dbg", nshards=16), dict(build="rel", nshards=16), dict(build="asan", nshards=16, scale=0.2), dict(build="miri", nshards=16, timeout=3000)),
@@ -57,7 +57,7 @@ PROPS = {
         rule="catalogs with RRsets of 10-80 addresses, 200-octet TXT records, owner names of 120-190 octets with MX sets "
              "(defeating compression), referrals with and without glue; request EDNS payload sizes drawn from "
              "{0,1,511,512,513,600,700,1232,1233,2000,4096,65535,random}; server sizes 512..65535; every request is sent "
-             "over UDP and over TCP. distinct = (outcome kind: same / tc / partial, size bucket of the complete response); the UDP response buffer handed to the server is the configured payload size, slightly larger, random, or 65535 octets (the limit must come from the server, not from the buffer); a third of the scenarios carry TSIG keys (key names related to zone names, up to 190 octets) and a third of their requests are validly signed, so the space taken by the TSIG record takes part in every size decision (the comparison with the TCP response then ignores the TSIG records themselves); a quarter of the requests in key scenarios have a QNAME of 200-255 octets below a loaded zone, so that question + TSIG record approach and exceed 512 octets. Not judged: TC over UDP when the TCP outcome is a SERVFAIL reached only after writing a CNAME chain (the server cannot foresee it)",
+             "over UDP and over TCP. distinct = (outcome kind: same / tc / partial, size bucket of the complete response); the UDP response buffer handed to the server is the configured payload size, slightly larger, random, or 65535 octets (the limit must come from the server, not from the buffer); a third of the scenarios carry TSIG keys (key names related to zone names, up to 190 octets) and a third of their requests are validly signed, so the space taken by the TSIG record takes part in every size decision (the comparison with the TCP response then ignores the TSIG records themselves); a quarter of the requests in key scenarios have a QNAME of 200-255 octets below a loaded zone, so that question + TSIG record approach and exceed 512 octets. Not judged: TC over UDP when the TCP outcome is a SERVFAIL reached only after writing a CNAME chain (the server cannot foresee it); a sixth of the scenarios have rate limiting on (there only 'TCP never sets TC' and the UDP size limit are judged); MX fan-outs as in C01 make optional address RRsets stop and start fitting in the middle of a response",
         assumptions=COMMON_ASSUMPTIONS + ["no TSIG and no RRL in this workload (byte-equality of the twin responses)"],
         quick=plans(dict(build="dbg", nshards=16)),
         thorough=plans(dict(build="dbg", nshards=16), dict(build="rel", nshards=16), dict(build="asan", nshards=16, scale=0.2), dict(build="miri", nshards=16, timeout=3000)),
@@ -86,7 +86,7 @@ PROPS = {
                   "over decoded responses, for HashMapTreeCatalog and SingleZoneCatalog",
         rule="catalogs of 1-5 entries over nested names in IN/CH/HS/CLASS65280 in the states loaded / not-yet-loaded / "
              "failed; requests with opcodes 0-15, with and without a question, QCLASS ANY/NONE/unknown, QTYPE "
-             "AXFR/IXFR/MAILA/MAILB, names inside, between and outside the entries. distinct = (expected rule, response shape); half of the catalogs are edited histories: 1-3 decoy entries below, above and beside the lasting entries are inserted and removed again in random order; a third of the scenarios carry TSIG keys and a third of their requests are validly signed (same outcome expected)",
+             "AXFR/IXFR/MAILA/MAILB, names inside, between and outside the entries. distinct = (expected rule, response shape); half of the catalogs are edited histories: 1-3 decoy entries below, above and beside the lasting entries are inserted and removed again in random order; a third of the scenarios carry TSIG keys and a third of their requests are validly signed (same outcome expected); the name list contains, for every catalog entry, wire-confusable names (one label spelling the entry's wire form, or only its first label)",
         assumptions=COMMON_ASSUMPTIONS,
         quick=plans(dict(build="dbg", nshards=16)),
         thorough=plans(dict(build="dbg", nshards=16), dict(build="rel", nshards=16), dict(build="asan", nshards=16, scale=0.2), dict(build="miri", nshards=16, timeout=3000)),
